@@ -227,6 +227,14 @@ func init() {
 		t.Check("on_close_once", atomic.LoadInt32(&t.onClose) == 1, "close callback ran %d times", atomic.LoadInt32(&t.onClose))
 		t.Check("close_final:no_after_reconnected", atomic.LoadInt32(&t.afterRec) == 0, "after-reconnect callback ran after Close")
 		t.Join()
+		// C16: whatever the re-dial that overlapped Close produced has been released
+		n, where := libGoroutines()
+		for i := 0; i < 40 && n > 0; i++ { // a retry goroutine may be inside its one-second back-off when Close returns
+			t.Sleep(1)
+			n, where = libGoroutines()
+		}
+		t.Check("client_threads_exit", n == 0, "%d library goroutine(s) alive after Close overlapped a slow re-dial: %s", n, where)
+		t.Check("sockets_released", p.Open() == 0, "%d socket(s) still open at the peer after Close overlapped a slow re-dial", p.Open())
 	}})
 
 	// Close while the recovery is authenticating: the successful answer to the resume request is already queued behind a busy
